@@ -1,12 +1,15 @@
 import EaselModel.Core.Proto
 import EaselModel.Buffer.Model
+import EaselModel.Buffer.SpecHist
 /-! Line-protocol driver for the C05 model (esl_buffer.c).
 
   open mode=<string|stream|pipe|file|allfile|mmap> ps=<pagesize> hex=<input bytes>
   getline | fetchline | fetchlinestr | gettoken sep=<hex> | fetchtoken sep=<hex> | fetchtokenstr sep=<hex>
   read k=<n> | get | set k=<nused> | getoffset | setoffset o=<n> | setanchor o=<n> | setstable o=<n> | raise o=<n>
 
-  answer: `<status> <hex bytes> n=<count> off=<offset after the op>[ z=1][ moved=1]` -/
+  answer: `<status> <hex bytes> n=<count> off=<offset after the op>[ z=1][ moved=1] spec=<status>,<hex>,<off> valid=<0|1>`
+  where `spec=` is the observation `specStep` prescribes and `valid=` says whether the op is inside the API contract
+  `Valid ps` in the specification state reached so far (both are about the specification, not the model). -/
 open EaselModel.Proto EaselModel.Buffer
 
 def stName : St → String
@@ -41,19 +44,28 @@ def fmt (o : Out) (s : Sess) : String :=
   stName o.st ++ " " ++ hexOrDash o.bytes ++ " n=" ++ toString o.n ++ " off=" ++ toString s.b.offset
     ++ (if o.z then " z=1" else "") ++ (if s.moved then " moved=1" else "")
 
-def stepLine (st : Option Sess) (line : String) : Option Sess × String :=
+structure DState where
+  s : Sess
+  a : AState
+  P : Nat
+
+def stepLine (st : Option DState) (line : String) : Option DState × String :=
   let ws := words line
   if ws.head? == some "open" then
     match (arg? ws "mode").bind parseMode, argNat? ws "ps", argHex? ws "hex" with
     | some m, some ps, some src =>
       let s : Sess := { b := openBuf m ps src }
-      (some s, fmt { st := .ok } s)
+      (some { s := s, a := AState.init src, P := ps }, fmt { st := .ok } s)
     | _, _, _ => (st, "bad-op")
   else
     match st, parseOp ws with
-    | some s, some op =>
-      let (o, s') := s.step op
-      (some s', fmt o s')
+    | some d, some op =>
+      let (o, s') := d.s.step op
+      let v := validB d.P d.a op
+      let (so, a') := specStep d.a op
+      (some { d with s := s', a := a' },
+       fmt o s' ++ " spec=" ++ stName so.st ++ "," ++ hexOrDash so.bytes ++ "," ++ toString so.off
+         ++ " valid=" ++ (if v then "1" else "0"))
     | _, _ => (st, "bad-op")
 
-def main : IO Unit := runDriver (none : Option Sess) stepLine
+def main : IO Unit := runDriver (none : Option DState) stepLine
